@@ -383,6 +383,24 @@ def specClause (wl : ITSGraph → Hash) (g : MolGraph) (rc : ITSGraph) (n : Opti
     else if results.length != capLen n pool.length then some "one_per_match:count"
     else none
 
+/-! ### the hypotheses of the theorems, executable (evaluated by the driver on every request) -/
+
+/-- no two entries of an edge list join the same pair of atoms (a simple graph) -/
+def nodupPairsB {α : Type} : List (E α) → Bool
+  | [] => true
+  | e :: es => es.all (fun f => !hit e.1 e.2.1 f.1 f.2.1) && nodupPairsB es
+
+/-- Boolean form of `InputsWF g rc` (`Proofs/C16Full.lean`; sound: `C16.inputsWFB_sound`): `g` is a simple
+    graph with pairwise distinct node ids, bond orders `≠ 0`, edges between its nodes; `rc` is a simple
+    graph whose labels are not `(0, 0)` and whose node ids are pairwise distinct.  These are the
+    hypotheses of `C16.applyRule_spec`; `C16.specCheck_sound` needs the two `Nodup` parts. -/
+def inputsWFB (g : MolGraph) (rc : ITSGraph) : Bool :=
+  nodupPairsB g.edges && g.edges.all (fun e => e.2.2 != 0)
+  && decide g.nodeIds.Nodup
+  && g.edges.all (fun e => g.nodeIds.contains e.1 && g.nodeIds.contains e.2.1)
+  && nodupPairsB rc.edges && rc.edges.all (fun e => !(e.2.2.1 == 0 && e.2.2.2 == 0))
+  && decide (mkRule rc).l.nodeIds.Nodup
+
 def specCheck (wl : ITSGraph → Hash) (g : MolGraph) (rc : ITSGraph) (n : Option Nat)
     (unique connectedOnly : Bool) (results : List ITSGraph) : Bool :=
   (specClause wl g rc n unique connectedOnly results).isNone
